@@ -17,6 +17,7 @@ KINDS = {
     "cblock": (lockstep.gen_cblock_case, lockstep.coq_expr_c, lockstep.impl_lines_c, 1500),
     "cstep": (lockstep.gen_cstep_case, lockstep.coq_expr_cx, lockstep.impl_lines_cx, 4000),
     "fexec": (lockstep.gen_fexec_case, lockstep.coq_expr_fs, lockstep.impl_lines_fs, 3000),
+    "ublock": (lockstep.gen_ublock_case, lockstep.coq_expr, lockstep.impl_lines, 800),
 }
 
 
